@@ -117,7 +117,17 @@ def check_c17(tier, rep=None, only=None):
     for mi, m in enumerate(meta):
         d = os.path.dirname(jl[mi]['read_gvf'])
         a = dict(jl[mi]['circ_seq']); a.update(cvgen.cli_cfg(CFG))
-        a.update(input_path=[jl[mi]['read_gvf']], output_path=os.path.join(d, 'cv.fasta'), max_variants_per_node=[-1],
+        # small variants on the host transcripts (some lie on the circles, some on a fragment's first three bases, some outside)
+        rv = env.rng(f'c17-vars-{mi}')
+        small = []
+        for tt in m['ref'].txs.values():
+            if rv.random() < 0.7:
+                small += cvgen.random_small_variants(rv, m['ref'], tt, rv.randrange(1, 4), kinds=('SNV', 'SNV', 'INS', 'DEL'))
+        m['small'] = small
+        inputs = [jl[mi]['read_gvf']]
+        if small:
+            sg = os.path.join(d, 'small.gvf'); cvgen.write_gvf(sg, small); inputs.append(sg)
+        a.update(input_path=inputs, output_path=os.path.join(d, 'cv.fasta'), max_variants_per_node=[-1],
                  additional_variants_per_misc=[-1])
         cvjobs.append(dict(cmd='callVariant', args=a))
     cvres = jobs.run_jobs('run_cv_batch.py', [dict(jobs=cvjobs[k::nj]) for k in range(nj)], timeout=3000)
@@ -166,8 +176,23 @@ def check_c17(tier, rep=None, only=None):
             c = dict(chrom=list(chrom), gene=dict(start=g['start'], end=g['end'], strand=g['strand']), tx=tx_spec(t),
                      blocks=y['blocks'], kind=y['kind'], enough=y['enough'], startRange=list(m['sr']), endRange=list(m['er']))
             tt = m['ref'].txs[t['id']]
+            # the circle's fragments and the host transcript's small variants in circle coordinates
+            gobj = m['ref'].genes[tt.gene]
+            fr = sorted(((gobj.g2gene(b[0]), gobj.g2gene(b[1] - 1) + 1) if gobj.strand == 1 else (gobj.g2gene(b[1] - 1), gobj.g2gene(b[0]) + 1))
+                        for b in y['blocks'])
+            frag_idx, off = [], 0
+            for fa, fb in fr:
+                frag_idx.append([off, off + fb - fa]); off += fb - fa
+            cvars = []
+            for v in m.get('small', []):
+                if v['tx'] != t['id']:
+                    continue
+                for (fa, fb), (ia, ib) in zip(fr, frag_idx):
+                    if fa <= v['gstart'] and v['gend'] <= fb:
+                        cvars.append(dict(start=ia + v['gstart'] - fa, end=ia + v['gend'] - fa, ref=list(v['ref']), alt=list(v['alt']), id=v['id']))
             c.update(cfg=cvgen.spec_cfg(CFG), proteome=cvgen.proteome_record(m['ref']), host=cvgen.tx_record(m['ref'], tt),
-                     cvran=False, cpeps=[], allobs=[])
+                     cvran=False, cpeps=[], allobs=[], cvars=cvars, fragIdx=frag_idx,
+                     hostHasVars=any(v['tx'] == t['id'] for v in m.get('small', [])))
             if hit:
                 rec, bsj = hit[0]
                 nrec += 1
